@@ -480,6 +480,38 @@ def run_containers(case):
   return R(None, n > 1, (name.split("(")[0].split(".")[0], n > 3))
 
 
+# ------------------------------------------------------------ calling routes
+from ..routes import routes_agree, seq as rseq
+
+
+def route_table():
+  T = OrderedDict()
+  c = lambda v: (lambda: v)
+  X = lambda: [Q(v) for v in BASE]
+  app = lambda filt: rseq(filt(X(), zero=Q(0)))
+  for strat in ("deque", "recursive", "feedback", "fir"):
+    T["maverage." + strat] = (maverage[strat], [("size", c(2))], app)
+  T["amdf"] = (amdf, [("lag", c(2)), ("size", c(4))], app)
+  for strat in ("abs", "squared", "rms"):
+    T["envelope." + strat] = (envelope[strat], [("sig", X), ("cutoff", c(0.5))], lambda g: [round(float(Q(v).f if hasattr(v, "f") else v), 10) for v in g])
+  T["clip"] = (clip, [("sig", X), ("low", c(Q(-1, 2))), ("high", c(Q(2)))], rseq)
+  T["zcross"] = (zcross, [("seq", X), ("hysteresis", c(Q(1, 2))), ("first_sign", c(Q(-1)))], rseq)
+  T["unwrap"] = (unwrap, [("sig", X), ("max_delta", c(Q(1))), ("step", c(Q(3)))], rseq)
+  for strat in ("accumulate", "itertools", "func", "pure_python", "z"):
+    T["accumulate." + strat] = (accumulate[strat], [("sig", X)], rseq, 1)
+  return T
+
+
+def gen_routes(run):
+  for name in route_table():
+    yield (name,)
+
+
+def run_routes(case):
+  ent = route_table()[case[0]]
+  return routes_agree(case[0], ent[0], ent[1], ent[2], ent[3] if len(ent) > 3 else 0)
+
+
 KINDS = OrderedDict([
   ("maverage", Kind(gen_maverage, run_maverage, chunk=10, rule="strategy x size x zero kind x length on symbolic input")),
   ("reuse", Kind(gen_interleave, run_interleave, chunk=2, rule="one filter object, two signals, interleaved consumption")),
@@ -493,4 +525,6 @@ KINDS = OrderedDict([
   ("unwrap", Kind(gen_unwrap, run_unwrap, chunk=200, rule="all sequences x (max_delta, step) pairs x parameter types; non-trivial: a jump above max_delta")),
   ("unwrap-fine", Kind(gen_fine, run_unwrap, chunk=100, rule="sequences over a finer 8-value alphabet (length <= 4) x the same configurations")),
   ("zcross-fine", Kind(gen_fine, run_zcross, chunk=100, rule="sequences over the finer alphabet x hysteresis x first_sign")),
+  ("call-routes", Kind(gen_routes, run_routes, chunk=1,
+                       rule="each function with every documented parameter set: all positional / all keyword / every split must agree")),
 ])
